@@ -17,6 +17,10 @@ Matches(v, zero, exact) ==
          /\ Near(v[i], SC, exact[i], 2)
          /\ (zero[i] = 1) <=> (exact[i][1] = 0)
 
+\* "sum to one" at the precision of the numeric type: n weights, each rounded once after the final division, summed exactly (113 bits) -
+\* at most n / 2 + 1 epsilons off
+SumToOne(e) == ("sumEps" \in DOMAIN e) => e.sumEps <= Len(e.v) + 2
+
 RefCase ==
     /\ l <= TraceLen
     /\ LET e == TheTrace[l]
@@ -37,6 +41,7 @@ InitCase ==
        IN /\ e.e = "InitCase"
           /\ e.fin = 1
           /\ Matches(e.v, e.zero, RefineW(e.w, ones, <<e.mn, e.md>>))
+          /\ SumToOne(e)
     /\ l' = l + 1 /\ UNCHANGED <<run, disabled, lastId, lastAllZero>>
 
 \* invariants for arbitrary beta / data / minimum weight
@@ -50,7 +55,7 @@ RefAny ==
     /\ LET e == TheTrace[l] IN
        /\ e.e = "RefAny"
        /\ e.fin = 1
-       /\ VecOK(e.v, e.zeroOut, e.n, e.sum, e.floor)
+       /\ VecOK(e.v, e.zeroOut, e.n, e.sum, e.floor) /\ SumToOne(e)
        /\ \A i \in 1 .. e.n : (e.zeroIn[i] = 1) => e.zeroOut[i] = 1            \* never re-enabled
        /\ (e.noInfo = 1) => e.outId = e.inId                                   \* unchanged
        /\ (e.noInfo = 0) => \A i \in 1 .. e.n : (e.positive[i] = 1) => e.v[i] >= e.floor - 2
@@ -64,7 +69,7 @@ RunWeights ==
            dis == IF fresh THEN {} ELSE disabled
        IN /\ e.e = "RunWeights"
           /\ e.fin = 1
-          /\ VecOK(e.v, e.zeroOut, n, e.sum, e.floor)
+          /\ VecOK(e.v, e.zeroOut, n, e.sum, e.floor) /\ SumToOne(e)
           /\ \A i \in dis : e.zeroOut[i] = 1                                   \* disabled stays disabled
           /\ (~fresh) => e.prevId = lastId
           /\ (~fresh /\ lastAllZero = 1) => e.id = lastId                      \* all-zero iteration: unchanged
